@@ -61,7 +61,7 @@ def run(out: common.Outcome):
         out, "C17", [("crash", 1.0)], ["internal_error", "stuck", "exactly_once", "restart_budget"],
         nontrivial=lambda r: len(r["summary"]["dead"]) >= 1,
         rule="all modes with external kills at every lifecycle stage (booting, collecting, collected, idle, shutting down) and crashing tests, and reports the controller cannot rebuild (worker written off); plus real pytest runs with an undecodable report; non-trivial = at least one death",
-        modes=None, extra_jobs=lifecycle_jobs, extra_corr=e2e_undecodable)
+        modes=None, extra_jobs=lifecycle_jobs, extra_corr=system_common.ctl_extra(["internal_error", "restart_budget"], then=e2e_undecodable))
 
 
 replay = system_common.replay
